@@ -516,6 +516,12 @@ def b_int(it, a, k):
         return x
     if isinstance(x, Fraction):
         return int(x)
+    if isinstance(x, str):
+        # concrete text: CPython's own conversion; text that is not a number raises ValueError as it does natively
+        try:
+            return int(x)
+        except ValueError:
+            raise it.p.pyexc('ValueError')
     if isinstance(x, SV):
         if x.kind == 'int':
             return x
